@@ -1125,3 +1125,92 @@ def gen_greedy_program(rng):
     p = {"outs": [{"type": "int", "name": "kind", "default": None}], "hooks": [], "finish_codes": [], "yield_codes": [],
          "body": [("loop", None, [("gcase", clauses), ("match", ("lit", b";"))])]}
     return p, pr_prog(p)
+
+
+# ---------------------------------------------------------------------------
+# near-ambiguous programs for C09: statement pairs `A; B` whose join is decided by one byte of lookahead, clause sets
+# with overlapping / prefix patterns, greedy cases with priority ties.  Tiny alphabet so that overlaps are frequent.
+# Returns (program, source, shape tag).
+# ---------------------------------------------------------------------------
+def gen_ambig_candidate(rng):
+    r = rng
+    AB = b"abc"
+    def lit(n=None):
+        return bytes(r.choice(AB) for _ in range(n or r.randint(1, 3)))
+    def cls():
+        k = r.choice(["c", "set", "nset", "any", "w"])
+        if k == "c": return ("c", r.choice(AB))
+        if k == "set": return ("set", [(97, r.choice([97, 98, 99]))], False)
+        if k == "nset": return ("set", [(r.choice(AB),) * 2], True)
+        if k == "any": return ("any",)
+        return ("cls", "\\w")
+    def open_re():
+        k = r.choice(["plus", "star-tail", "opt-tail", "alt", "rep"])
+        if k == "plus": return ("plus", cls())
+        if k == "star-tail": return ("seq", [("c", r.choice(AB)), ("star", cls())])
+        if k == "opt-tail": return ("seq", [("c", r.choice(AB)), ("opt", ("c", r.choice(AB)))])
+        if k == "alt": return ("alt", [("c", r.choice(AB)), ("seq", [("c", r.choice(AB)), ("c", r.choice(AB))])])
+        return ("rep", ("c", r.choice(AB)), 1, r.choice([2, 3, None]))
+    def pat(open_ok=True):
+        k = r.choice(["lit", "lit", "casei", "re"] if open_ok else ["lit", "lit", "casei"])
+        if k == "lit": return ("lit", lit())
+        if k == "casei": return ("casei", lit())
+        return ("re", open_re())
+    outs = [{"type": "int", "name": "n0", "signed": None, "width": None, "default": None}]
+    hooks = ["h0", "h1", "h2"]
+    mark = lambda i: ("hook", hooks[i % 3])
+    def B():
+        k = r.choice(["lit", "lit", "re", "case", "caseelse", "wait", "optional", "if"])
+        if k == "lit": return [("match", ("lit", lit()))], "lit"
+        if k == "re": return [("match", ("re", open_re())), ("match", ("lit", b";"))], "re"
+        if k == "case": return [("case", [([pat(False)], [mark(0)]), ([("lit", b";")], [])])], "case"
+        if k == "caseelse": return [("case", [([pat(False)], [mark(0)]), (["else"], [("match", ("lit", lit()))])])], "case-else"
+        if k == "wait": return [("wait", ("lit", lit(2)))], "wait"
+        if k == "optional": return [("optional", [("match", ("lit", lit()))]), ("match", ("lit", b";"))], "optional"
+        cond = ("bin", "==", ("var", "n0"), ("num", 1))
+        b1 = [("match", r.choice([("lit", lit()), ("re", ("set", [(r.choice(AB),) * 2], True))]))]
+        b2 = [("match", ("lit", lit()))]
+        return [("if", [(cond, b1)], b2)], "if"
+    shape = r.choice(["open;B", "open;B", "optional;B", "optional-else-head;B", "optional-wait;B", "foreach-open;B", "try-open;B", "if-open;B",
+                      "case-overlap", "case-prefix", "case-open-clause;B", "greedy-tie", "greedy-3", "wait-open;B", "loop-break;B"])
+    body = [("match", ("lit", b"q"))]
+    tag = shape
+    if shape == "open;B":
+        b, t = B(); body += [("match", ("re", open_re()))] + b; tag += ":" + t
+    elif shape == "optional;B":
+        b, t = B(); body += [("optional", [("match", pat()), mark(1)])] + b; tag += ":" + t
+    elif shape == "optional-else-head;B":
+        b, t = B()
+        els = r.choice([[("assign", "n0", ("num", 1))], [], [("match", ("lit", lit()))]])
+        body += [("optional", [("case", [([pat(False)], [mark(0)]), (["else"], els)]), ("match", ("lit", lit()))])] + b; tag += ":" + t
+    elif shape == "optional-wait;B":
+        b, t = B(); body += [("optional", [("wait", ("lit", lit(2)))])] + b; tag += ":" + t
+    elif shape == "foreach-open;B":
+        b, t = B(); body += [("foreach", [("match", ("re", open_re()))], [("assign", "n0", ("bin", "+", ("var", "n0"), ("num", 1)))])] + b; tag += ":" + t
+    elif shape == "try-open;B":
+        b, t = B(); body += [("try", [("match", ("re", open_re()))], ["nomatch"], [("match", ("lit", b"x"))])] + b; tag += ":" + t
+    elif shape == "if-open;B":
+        b, t = B()
+        body += [("if", [(("bin", "==", ("var", "n0"), ("num", 1)), [("match", ("re", open_re()))])], [("match", ("lit", lit()))])] + b; tag += ":" + t
+    elif shape == "case-overlap":
+        p1 = pat(False)
+        p2 = r.choice([p1, ("casei", p1[1]) if p1[0] == "lit" else pat(False), pat(False)])
+        body += [("case", [([p1], [mark(0)]), ([p2], [mark(1)])])]
+    elif shape == "case-prefix":
+        s = lit(2)
+        body += [("case", [([("lit", s)], [mark(0)]), ([("lit", s + lit(1))] if r.random() < 0.6 else [("lit", lit(3))], [mark(1)])])]
+    elif shape == "case-open-clause;B":
+        b, t = B(); body += [("case", [([("re", open_re())], []), ([("lit", b";")], [mark(1)])])] + b; tag += ":" + t
+    elif shape in ("greedy-tie", "greedy-3"):
+        n = 2 if shape == "greedy-tie" else 3
+        pats = [("re", ("plus", ("cls", "\\w")))] + [r.choice([("lit", lit(2)), ("re", ("seq", [("c", r.choice(AB)), ("cls", "\\w")]))]) for _ in range(n - 1 + r.randint(0, 1))]
+        prios = [r.choice([None, None, 1, 1, 2]) for _ in pats]
+        body += [("gcase", [(prios[i], [pats[i]], [mark(i), ("match", ("lit", b";"))]) for i in range(len(pats))])]
+    elif shape == "wait-open;B":
+        b, t = B(); body += [("wait", ("re", ("seq", [("c", r.choice(AB)), ("plus", ("c", r.choice(AB)))])))] + b; tag += ":" + t
+    elif shape == "loop-break;B":
+        b, t = B()
+        body += [("loop", None, [("case", [([("lit", lit(1))], [("break", None)]), (["else"], [])]), ("match", pat(False))])] + b; tag += ":" + t
+    body.append(("match", ("lit", b"\n")))
+    p = {"outs": outs, "hooks": hooks, "finish_codes": [], "yield_codes": [], "body": body}
+    return p, pr_prog(p), tag
